@@ -93,7 +93,7 @@ def select_case(draw):
     names = draw(st.lists(st.sampled_from(gen.RES_NAMES), min_size=n, max_size=n, unique=True))
     sel = draw(st.sampled_from(c10.selector_forms(names) + ['a.b', 'a.*b', '[ab].*', 'res_1.?', 'a|ab|abc']))
     return {'size': 'select', 'proc': draw(st.sampled_from(['load_package', 'load_tuple'])), 'names': names, 'sel': sel,
-            'limit': draw(st.sampled_from([None, None, 1, 2, 4]))}
+            'limit': draw(st.sampled_from([None, None, 1, 2, 4])), 'seq_iters': draw(st.booleans())}
 
 
 @st.composite
